@@ -111,6 +111,8 @@ def solve_scalar(
             next(iter((denominator.terms.values()))).simplify()
         ).doit()  # Not sure why doit is needed here, but it is.
         if denominator == 0:
+            if coeff.simplify() == 0:
+                continue  # A term that vanishes identically does not need solving.
             raise ValueError(
                 "The states coupled by the perturbation must not share unperturbed"
                 " energies."
@@ -134,6 +136,7 @@ def solve_scalar(
 
 def solve_sylvester_2nd_quant(
     eigs: tuple[tuple[sympy.Expr, ...], ...],
+    hermitian: bool = True,
 ) -> Callable:
     """Solve a Sylvester equation for 2nd quantized diagonal Hamiltonians.
 
@@ -141,6 +144,10 @@ def solve_sylvester_2nd_quant(
     ----------
     eigs :
         Tuple of lists of expressions representing the diagonal Hamiltonian blocks.
+    hermitian :
+        Whether the right hand sides of diagonal blocks are Hermitian, as they are
+        in the Hermitian algorithm. This allows to compute only half of the
+        solution and to obtain the rest by taking the adjoint.
 
     Returns
     -------
@@ -178,17 +185,17 @@ def solve_sylvester_2nd_quant(
         for i in range(Y.rows):
             for j in range(Y.cols):
                 # Only compute upper triangle of diagonal blocks
-                if index[0] != index[1] or i >= j:
+                if not hermitian or index[0] != index[1] or i >= j:
                     result[i, j] = solve_scalar(
                         Y[i, j],
                         eigs_A[i],
                         eigs_B[j],
-                        diagonal=(i == j and index[0] == index[1]),
+                        diagonal=(hermitian and i == j and index[0] == index[1]),
                     )
         for i in range(Y.rows):
             for j in range(Y.cols):
                 # Fill the lower triangle with minus conjugate transpose
-                if index[0] == index[1] and i < j:
+                if hermitian and index[0] == index[1] and i < j:
                     result[i, j] = -result[j, i].adjoint()
 
         return result
